@@ -1,6 +1,11 @@
 import MidnightZK.Proofs.C17.Keys
 import MidnightZK.Proofs.C17.Perm
 import MidnightZK.Proofs.C17.Params
+import MidnightZK.Proofs.C17.PkRead
+import MidnightZK.Proofs.C17.Coset
+import MidnightZK.Proofs.C17.Assembly
+import MidnightZK.Model.C17.PkRead
+import MidnightZK.Gen.C17Sites
 import MidnightZK.Model.C17.Transcript
 import MidnightZK.Model.C17.Params
 import MidnightZK.Gen.C17Consts
@@ -479,6 +484,308 @@ example : downsizeS (fun _ => (⟨-1, -1, 1 / 2⟩ : Dom ℚ)) (setupS (·⁻¹)
   downsize_eq_setup (fun _ => (⟨-1, -1, 1 / 2⟩ : Dom ℚ)) 3 2 1 (by decide) (by norm_num) (by norm_num)
     (by intro i hi; have : i = 0 ∨ i = 1 := by omega
         rcases this with rfl | rfl <;> norm_num)
+
+/-! ## `Assembly::copy`: the copy-constraint permutation -/
+
+/-- `copy_transposes_images`: a successful `Assembly::copy(l, r)` either finds the two cells
+under the same representative (`aux`) and changes nothing, or exchanges the images of `l` and
+`r` under `mapping` and leaves the image of every other cell alone
+(`mapping' = mapping ∘ (l r)`): the only way the code ever modifies `mapping`. -/
+theorem copy_transposes_images (a a' : Assembly) (lc lr rc rr : Nat) (h : a.copy lc lr rc rr = some a') :
+    (get2 a.aux (lc, lr) = get2 a.aux (rc, rr) ∧ a' = a) ∨
+    (get2 a.aux (lc, lr) ≠ get2 a.aux (rc, rr) ∧ ∀ c, get2 a'.mapping c =
+      if c = (rc, rr) then get2 a.mapping (lc, lr) else if c = (lc, lr) then get2 a.mapping (rc, rr)
+      else get2 a.mapping c) :=
+  copy_mapping_swap a a' lc lr rc rr h
+
+/-- `assembly_copy_spec_partial`: after ANY sequence of `copy` calls on a fresh `Assembly` (any
+table shape, any order, repetitions, self-copies) `mapping` is a permutation of the cells of the
+table: it sends cells to cells and is injective — so the σ polynomials `build_pk`/`build_vk` fill
+from it (`permutation_by_index`) are a relabelling of the identity labels `δ^i·ω^j`, each label
+used exactly once. MISSING (hence `_partial`): that the cycles of this permutation are exactly the
+equivalence classes of the requested copies (the union-find invariant relating `mapping`, `aux`
+and `sizes`); the driver checks that invariant on the model's state for every copy list recorded
+from a real synthesis, and for the reversed and the flipped list, against the plain closure
+computed by the harness (`perminv` lines). -/
+theorem assembly_copy_spec_partial (n ncols : Nat) (l : List (Nat × Nat × Nat × Nat)) (a : Assembly)
+    (h : (Assembly.new n ncols).copies l = some a) : PermOn a :=
+  copies_preserve_perm l _ a h (new_perm n ncols)
+
+example : ((Assembly.new 4 2).copies [(0, 1, 1, 2), (1, 2, 0, 3), (0, 3, 0, 1)]).isSome = true := by decide
+
+/-! ## The recomputed part of a proving key (`keygen_pk` tail = `ProvingKey::read`) -/
+
+section
+variable {P F : Type} [Zero F] [One F] [Add F] [Sub F] [Mul F]
+
+/-- `distribute_powers_zeta_indexwise`: for every positive thread count,
+`EvaluationDomain::distribute_powers_zeta` multiplies coefficient `j` by `[1, ζ, ζ²][j % 3]`
+(each worker starts counting at the global offset of its chunk). -/
+theorem distribute_powers_zeta_indexwise (t : Nat) (ht : 0 < t) (d : EDom F) (a : List F) :
+    distributePowersZeta t d a = a.mapIdx (zetaMul d.zeta d.zetaSq) :=
+  distributePowersZeta_eq t ht d a
+
+/-- `lagrange_polys_thread_independent`: the four locals of `compute_lagrange_polys` (`l0`,
+`l_blind`, `l_last` through `coeff_to_extended`, `l_active_row` through its own `parallelize`
+loop) are the same under any two positive thread counts; `l_active_row[i] = 1 − (l_last[i] +
+l_blind[i])` index-wise over the extended domain. -/
+theorem lagrange_polys_thread_independent (t₁ t₂ : Nat) (h₁ : 0 < t₁) (h₂ : 0 < t₂) (d : EDom F) (bf : Nat) :
+    lagrLocals t₁ d bf = lagrLocals t₂ d bf ∧
+    (lagrLocals t₁ d bf).lActiveRow = (List.range (2 ^ d.extK)).map (fun i =>
+      1 - ((lagrLocals t₁ d bf).lLast.getD i 0 + (lagrLocals t₁ d bf).lBlind.getD i 0)) := by
+  refine ⟨by rw [lagrLocals_eq t₁ h₁, lagrLocals_eq t₂ h₂], ?_⟩
+  rw [lagrLocals_eq t₁ h₁]
+  rfl
+
+/-- `polys_and_cosets_by_index`: `compute_polys_and_cosets` (two `parallelize` loops over the
+permutation columns) is index-wise for every positive thread count: `polys[i] =
+lagrange_to_coeff(permutations[i])`, `cosets[i] = coeff_to_extended(polys[i])`; it panics iff
+the key holds fewer permutation polynomials than the circuit has permutation columns (and
+silently ignores surplus ones). -/
+theorem polys_and_cosets_by_index (t : Nat) (ht : 0 < t) (d : EDom F) (ncols : Nat) (perms : List (List F)) :
+    computePolysAndCosets t d ncols perms = polysAndCosetsSpec d ncols perms :=
+  computePolysAndCosets_eq t ht d ncols perms
+
+/-- `pk_derived_thread_independent`: everything a proving key holds besides its stored part is
+the same under any two positive thread counts, at either call site. -/
+theorem pk_derived_thread_independent (t₁ t₂ : Nat) (h₁ : 0 < t₁) (h₂ : 0 < t₂) (ret pat : List String)
+    (init : List (String × String)) (d : EDom F) (bf ncols : Nat) (s : PKStored P F) :
+    derivePKFull t₁ ret pat init d bf ncols s = derivePKFull t₂ ret pat init d bf ncols s :=
+  derivePKFull_thread_independent t₁ t₂ h₁ h₂ ret pat init d bf ncols s
+
+omit [Zero F] [One F] [Add F] [Sub F] [Mul F] in
+/-- `lagrange_sites_agree` (over the orders read from the sources on every check): with the
+array `compute_lagrange_polys` returns today, the pattern `keygen_pk` destructures it with and
+the pattern `ProvingKey::read` destructures it with, the fields `l0`, `l_last`, `l_active_row`
+of the struct built at EITHER site receive the local of the same name — whatever the locals
+are. A change of the returned order that is followed at one caller only, a swapped pattern, or
+a swapped field initialiser makes this false. -/
+theorem lagrange_sites_agree (locals : String → List F) :
+    (∀ f ∈ ["l0", "l_last", "l_active_row"],
+      siteField Gen.lagrReturn Gen.lagrDestructRead Gen.pkInitRead locals f = locals f ∧
+      siteField Gen.lagrReturn Gen.lagrDestructKeygen Gen.pkInitKeygen locals f = locals f) ∧
+    Gen.lagrArgsRead = "&vk, &vk.cs" ∧ Gen.lagrArgsKeygen = "&vk, &cs" := by
+  have r := siteField_read locals
+  have k := siteField_keygen locals
+  refine ⟨?_, rfl, rfl⟩
+  intro f hf
+  simp only [List.mem_cons, List.not_mem_nil, or_false] at hf
+  rcases hf with rfl | rfl | rfl
+  · exact ⟨r.1, k.1⟩
+  · exact ⟨r.2.1, k.2.1⟩
+  · exact ⟨r.2.2, k.2.2⟩
+
+/-- Non-vacuity / sensitivity: had `compute_lagrange_polys` returned `[l0, l_active_row, l_last]`
+with only `keygen_pk` following (seeded change C17-4), the field `l_last` of a key built by
+`ProvingKey::read` would hold the local `l_active_row`. -/
+example (locals : String → List F) :
+    siteField ["l0", "l_active_row", "l_last"] Gen.lagrDestructRead Gen.pkInitRead locals "l_last"
+      = locals "l_active_row" := rfl
+
+/-- `lagrange_rows_as_modelled`: the rows `compute_lagrange_polys` sets to one are the ones the
+model's `lagrLocals` uses: row `0` for `l0`, the last `cs.blinding_factors()` rows for `l_blind`,
+row `n − cs.blinding_factors() − 1` for `l_last`, and `one − (l_last + l_blind)` for
+`l_active_row` (the text of the source, regenerated on every check). -/
+theorem lagrange_rows_as_modelled :
+    Gen.lagrRows = [("l0", "0"), ("l_blind", "last cs.blinding_factors()"),
+      ("l_last", "n - cs.blinding_factors() - 1"), ("l_active_row", "one - (l_last[idx] + l_blind[idx])")] := by
+  decide
+
+end
+
+section
+variable {P F : Type} [Zero F] [One F] [Add F] [Sub F] [Mul F]
+
+/-- `pk_reloaded_lagrange_fields`: in a key built by `ProvingKey::read` (under any positive
+thread count) the field `l0` is the extended form of the Lagrange polynomial of row 0, `l_last`
+that of row `n − bf − 1`, and `l_active_row` is `1 − (l_last + l_blind)` — each field holds the
+polynomial of its own name. -/
+theorem pk_reloaded_lagrange_fields (t : Nat) (ht : 0 < t) (d : EDom F) (bf ncols : Nat) (s : PKStored P F)
+    (r : PKDerived F)
+    (h : derivePKFull t Gen.lagrReturn Gen.lagrDestructRead Gen.pkInitRead d bf ncols s = some r) :
+    r.l0 = (lagrLocalsSpec d bf).l0 ∧ r.lLast = (lagrLocalsSpec d bf).lLast ∧
+      r.lActiveRow = (lagrLocalsSpec d bf).lActiveRow := by
+  unfold derivePKFull at h
+  rw [lagrLocals_eq t ht] at h
+  have sr := siteField_read (lagrLocalsSpec d bf).byName
+  cases hc : computePolysAndCosets t d ncols s.permutations with
+  | none => rw [hc] at h; cases h
+  | some pc =>
+    rw [hc] at h
+    simp only [Option.some.injEq] at h
+    subst h
+    exact ⟨sr.1, sr.2.1, sr.2.2⟩
+
+/-- `pk_full_roundtrip`: a proving key generated by `keygen_pk` under `t` threads, written in
+format `fa` and read back in a compatible format `fb` under `t'` threads, comes back with EVERY
+part equal to the generated key's: the stored part (`pk_roundtrip`) and everything
+`ProvingKey::read` recomputes — `l0`, `l_last`, `l_active_row`, the coefficient and extended
+forms of the fixed columns and of the permutation polynomials — with the destructuring orders
+of the two call sites as they are in the sources today. -/
+theorem pk_full_roundtrip (c : Codec P) (hc : c.Lawful) (fc : FCodec F) (hfc : fc.Lawful) (v : UInt8)
+    (fa fb : Format) (hcompat : fa.compat fb = true) (sh : Shape) (t t' : Nat) (ht : 0 < t) (ht' : 0 < t')
+    (d : EDom F) (bf : Nat) (st : PKStored P F)
+    (hk : st.vk.k ≤ sh.S) (hk8 : st.vk.k < 256) (hext : extendedK st.vk.k (sh.degree - 1) ≤ sh.S)
+    (hf : st.vk.fixed.length = sh.nFixed) (hp : st.vk.perm.length = sh.nPerm) (h32 : sh.nFixed < 2 ^ 32)
+    (hn1 : st.fixedValues.length < 2 ^ 32) (hl1 : ∀ p ∈ st.fixedValues, p.length < 2 ^ 32)
+    (hn2 : st.permutations.length < 2 ^ 32) (hl2 : ∀ p ∈ st.permutations, p.length < 2 ^ 32) :
+    (readPK c fc v fb sh (writePK c fc v fa st)).map (fun r =>
+        (r.1, derivePKFull t' Gen.lagrReturn Gen.lagrDestructRead Gen.pkInitRead d bf sh.nPerm r.1))
+      = .ok (st, derivePKFull t Gen.lagrReturn Gen.lagrDestructKeygen Gen.pkInitKeygen d bf sh.nPerm st) := by
+  have h := pk_roundtrip c hc fc hfc v fa fb hcompat sh st [] hk hk8 hext hf hp h32 hn1 hl1 hn2 hl2
+  rw [List.append_nil] at h
+  rw [h]
+  simp only [Except.map]
+  rw [derivePKFull_thread_independent t' t ht' ht]
+  congr 2
+
+end
+
+section
+variable {K : Type} [Field K]
+
+/-- `coeff_to_extended_evaluates`: with `ζ³ = 1` and `g_coset_inv = ζ²`, `coeff_to_extended`
+returns, for every positive thread count, the values of the polynomial on the coset
+`ζ·ω_e^i`, `i < 2^extended_k` (so the `index % 3` shortcut of `distribute_powers_zeta` is
+multiplication of coefficient `j` by `ζ^j`). -/
+theorem coeff_to_extended_evaluates (t : Nat) (ht : 0 < t) (d : EDom K) (hζ : d.zeta ^ 3 = 1)
+    (hsq : d.zetaSq = d.zeta ^ 2) (a : List K) :
+    coeffToExtended t d a = (powersOf d.extOmega (2 ^ d.extK)).map (fun x => evalAt a (d.zeta * x)) := by
+  rw [coeffToExtended_eq t ht, coeffToExtendedSpec_eval d hζ hsq]
+
+end
+
+example : coeffToExtended 2 (⟨1, 2, ⟨-1, -1, 1 / 2⟩, -1, 1, 1⟩ : EDom ℚ) [3, 5] = [8, -2, 8, -2] := by
+  rw [coeff_to_extended_evaluates 2 (by decide) _ (by norm_num) (by norm_num)]
+  norm_num [powersOf, fillPowers, evalAt, List.replicate_succ]
+
+/-! ## Verifier view and transcript identity after a round trip -/
+
+section
+variable {P X : Type}
+
+/-- `vk_roundtrip_transcript_repr`: a verifying key written and read back in a compatible
+format has the same transcript identity and the same verifier view — every field the verifier
+reads: `k` and the domain derived from it, the fixed and permutation commitments, the transcript
+identity, and the constraint system (with its degree) configured from the circuit. -/
+theorem vk_roundtrip_transcript_repr (c : Codec P) (hc : c.Lawful) (v : UInt8) (h : Bytes → Nat)
+    (fa fb : Format) (hcompat : fa.compat fb = true) (sh : Shape) (vk : VK P) (desc : Bytes) (cs : X)
+    (hk : vk.k ≤ sh.S) (hk8 : vk.k < 256) (hext : extendedK vk.k (sh.degree - 1) ≤ sh.S)
+    (hf : vk.fixed.length = sh.nFixed) (hp : vk.perm.length = sh.nPerm) (h32 : sh.nFixed < 2 ^ 32) :
+    (readVK c v fb sh (writeVK c v fa vk)).map
+        (fun r => verifierView (fun k => transcriptRepr c v h k desc) cs r.1)
+      = .ok (verifierView (fun k => transcriptRepr c v h k desc) cs vk) := by
+  have := vk_roundtrip c hc v fa fb hcompat sh vk [] hk hk8 hext hf hp h32
+  rw [List.append_nil] at this
+  rw [this]; rfl
+
+end
+
+/-! ## `downsize` on the whole parameter set; write/read of a downsized set -/
+
+section
+variable {G1 G2 : Type}
+
+/-- `downsize_preserves_g2`: whatever `downsize` returns, `g2` and `s_g2` are the original ones
+(so the verifier parameters `verifier_params()` derives are those of the original set). -/
+theorem downsize_preserves_g2 (toLag : Nat → List G1 → List G1) (p q : ParamsB G1 G2) (newK : Nat)
+    (h : downsizeB toLag p newK = some q) : q.g2 = p.g2 ∧ q.sG2 = p.sG2 := by
+  unfold downsizeB at h
+  split at h
+  · cases h; exact ⟨rfl, rfl⟩
+  · split at h
+    · cases h
+    · cases h; exact ⟨rfl, rfl⟩
+
+/-- `downsize_write_read`: a well-formed parameter set (`2^k` bases of each kind) downsized to a
+smaller `new_k`, written in any format and read back in a compatible one, is the downsized set
+(provided `g_to_lagrange` returns as many points as it is given). -/
+theorem downsize_write_read (c1 : Codec G1) (h1 : c1.Lawful) (c2 : Codec G2) (h2 : c2.Lawful)
+    (toLag : Nat → List G1 → List G1) (hlag : ∀ k g, (toLag k g).length = g.length)
+    (fa fb : Format) (hcompat : fa.compat fb = true) (p : ParamsB G1 G2) (newK : Nat) (rest : Bytes)
+    (hk : p.k < 2 ^ 32) (hg : p.g.length = 2 ^ p.k) (hgl : p.gLagrange.length = 2 ^ p.k) (hlt : newK < p.k) :
+    ∃ q, downsizeB toLag p newK = some q ∧ q.k = newK ∧ q.g = p.g.take (2 ^ newK) ∧
+      readParams c1 c2 fb (writeParams c1 c2 fa q ++ rest) = .ok (q, rest) := by
+  have hpow : 2 ^ newK < 2 ^ p.k := Nat.pow_lt_pow_right (by omega) hlt
+  have hne : p.g.length.log2 ≠ newK := by rw [hg, Nat.log2_two_pow]; omega
+  refine ⟨{ k := newK, g := p.g.take (2 ^ newK), gLagrange := toLag newK (p.g.take (2 ^ newK)), g2 := p.g2, sG2 := p.sG2 }, ?_, rfl, rfl, ?_⟩
+  · simp [downsizeB, hne, hgl, hpow]
+  · have l1 : (p.g.take (2 ^ newK)).length = 2 ^ newK := by rw [List.length_take, hg]; omega
+    exact params_roundtrip c1 h1 c2 h2 fa fb hcompat _ rest (by simp only; omega) l1 (by simp only [hlag, l1])
+
+/-- `from_parts_lagrange`: `from_parts` with no Lagrange basis recomputes it from the monomial
+basis by the function `downsize` uses; so `from_parts(k', g[..2^k'], None, g2, s_g2)` IS the
+downsized set. -/
+theorem from_parts_lagrange (toLag : Nat → List G1 → List G1) (p : ParamsB G1 G2) (newK : Nat)
+    (hne : p.g.length.log2 ≠ newK) (hlt : 2 ^ newK < p.gLagrange.length) :
+    downsizeB toLag p newK = some (fromParts toLag newK (p.g.take (2 ^ newK)) none p.g2 p.sG2) := by
+  simp [downsizeB, fromParts, hne, hlt]
+
+end
+
+/-! ## Orders of writes, reads and bindings in the parameter code (regenerated on every check) -/
+
+/-- Position at which a name is read / written. -/
+def posOf (l : List String) (x : String) : Option Nat :=
+  let i := l.idxOf x
+  if i < l.length then some i else none
+
+/-- The vector of the file (0 = first, 1 = second) that ends up in field `field` of the result
+of `read_custom` in a branch that binds `reads` from the reader in this order, evaluates to the
+tuple `tuple`, which `let (target..) = match ..` binds and `Self { field: expr }` stores. -/
+def paramsFieldSource (reads tuple target : List String) (init : List (String × String)) (field : String) : Option Nat :=
+  match init.lookup field with
+  | none => none
+  | some e => match (target.zip tuple).lookup e with
+    | none => none
+    | some local_ => posOf reads local_
+
+/-- `params_sites_agree`: in EVERY format branch of `read_custom` the field `g` receives the
+vector `write_custom` writes first and `g_lagrange` the one it writes second; `k` is written
+first and `g2`, `s_g2` last in this order, and read in the same order. (Seeded change C17-3 —
+the `Processed` branch loading the Lagrange basis first — makes this false.) -/
+theorem params_sites_agree :
+    Gen.paramsWriteOrder = ["k", "g", "g_lagrange", "g2", "s_g2"] ∧
+    Gen.paramsReadTail = ["g2", "s_g2"] ∧
+    Gen.paramsReadBranches.map (·.1) = ["Processed", "RawBytes", "RawBytesUnchecked"] ∧
+    (∀ b ∈ Gen.paramsReadBranches,
+      paramsFieldSource b.2.1 b.2.2 Gen.paramsReadTarget Gen.paramsInitRead "g" = some 0 ∧
+      paramsFieldSource b.2.1 b.2.2 Gen.paramsReadTarget Gen.paramsInitRead "g_lagrange" = some 1) ∧
+    Gen.paramsInitRead.lookup "g2" = some "g2" ∧ Gen.paramsInitRead.lookup "s_g2" = some "s_g2" := by
+  decide
+
+example : paramsFieldSource ["g_lagrange", "g"] ["g", "g_lagrange"] Gen.paramsReadTarget Gen.paramsInitRead "g"
+    = some 1 := by decide
+
+/-- `pk_sites_agree`: `ProvingKey::write` writes and `ProvingKey::read` reads the verifying key,
+the fixed columns and the permutation part in this order (the order of the model's `writePK` /
+`readPK`); the struct built at either site initialises every field of `ProvingKey`, each stored
+field from the value read / computed for it. -/
+theorem pk_sites_agree :
+    Gen.pkWriteOrder = ["vk", "fixed_values", "permutation"] ∧ Gen.pkReadOrder = Gen.pkWriteOrder ∧
+    Gen.pkInitRead.map (·.1) = Gen.pkFields ∧ Gen.pkInitKeygen.map (·.1) = Gen.pkFields ∧
+    (∀ f ∈ Gen.pkFields, Gen.pkInitRead.lookup f = some f) ∧
+    Gen.pkInitKeygen.lookup "fixed_polys" = some "fixed_polys" ∧
+    Gen.pkInitKeygen.lookup "fixed_cosets" = some "fixed_cosets" := by
+  decide
+
+/-- `downsize_statement_order`: `downsize` returns early for the current `k`, asserts the target
+is smaller, truncates the monomial basis and only THEN recomputes the Lagrange basis from the
+truncated vector (the order of the model's `downsizeS` / `downsizeB`); `from_parts` recomputes a
+missing Lagrange basis by the same function; `verifier_params` prepares `−g2` and `s_g2`. -/
+theorem downsize_statement_order :
+    Gen.downsizeOrder = ["same-k-return", "assert-smaller", "truncate-g", "g_lagrange=g_to_lagrange(g,new_k)"] ∧
+    Gen.fromPartsInit.lookup "g_lagrange" = some "match:g_to_lagrange(&g, k)" ∧
+    Gen.fromPartsInit.lookup "g" = some "g" ∧
+    Gen.verifierParams.lookup "n_g2_prepared" = some "-self.g2" ∧
+    Gen.verifierParams.lookup "s_g2_prepared" = some "self.s_g2" ∧
+    Gen.verifierParams.lookup "s_g2" = some "self.s_g2" := by
+  decide
+
+/-- `zeta_constant`: `ZETA` as written in `fq.rs` is a primitive cube root of unity — the
+hypothesis of `coeff_to_extended_evaluates` for the real field. -/
+theorem zeta_constant : powMod zetaN 3 frR = 1 ∧ zetaN ≠ 1 ∧ zetaN < frR := by
+  decide +kernel
 
 /-! ## Constants read from the sources (regenerated on every check) -/
 
